@@ -163,6 +163,8 @@ def make_scenario(rnd, counts, nues_choices=None, fault=None, opts=None):
             # 139 is the id of the tunnel IE that follows the bit rate IE in the transfer: its encoding contains the octets 00 8B
             ue["ambrDl"] = num([139, 1 << 32, 4000000000000, 0, 256, 35584][s_ % 6])
             ue["setupMsgNas"] = (d + u) % 2 == 1       # another NAS message in the message-level NAS-PDU IE of the setup request
+            if opts.get("slow") and u == opts["slow"] - 1:
+                ue["setupDelay"] = 17                  # the SMF answers this UE's session request after 17 s
             if opts.get("fill") and u == opts["fill"] - 1:
                 ue["setupFill"] = 2048                 # this UE's setup request fills the emulator's receive buffer exactly
             if u >= 1 and d % 2 == 0:
